@@ -777,10 +777,19 @@ Definition segmented_ok (bits first : Z) (data : list Z) : bool :=
 
 (* [rule n] = what is recorded as number of entries for a table of n entries.
    The library: [entries_field] applied to the EXPANDED length. *)
+(* after the loop (since fix cf58852, D110): a table of no entries or of more
+   than 2^16 entries is refused (ValueError) *)
 Definition segmented_lut_gen (rule : list Z -> Z -> Z) (bits first : Z) (data : list Z)
   : res (list Z * list Z * Z) :=
   if segmented_ok bits first data then
-    bind (seg_count data 0) (fun n => Ok ([rule data n; first; bits], palette_store bits data, n))
+    bind (seg_count data 0) (fun n =>
+      if (n =? 0) || (65536 <? n) then Err "ValueError"
+      else Ok ([rule data n; first; bits], palette_store bits data, n))
+  else Err "ValueError".
+(* the constructor before that fix *)
+Definition segmented_lut_unguarded (bits first : Z) (data : list Z) : res (list Z * list Z * Z) :=
+  if segmented_ok bits first data then
+    bind (seg_count data 0) (fun n => Ok ([entries_field n; first; bits], palette_store bits data, n))
   else Err "ValueError".
 Definition segmented_lut := segmented_lut_gen (fun _ n => entries_field n).
 (* a variant that applies the 2^16 rule to the (already folded) length of the
@@ -788,6 +797,24 @@ Definition segmented_lut := segmented_lut_gen (fun _ n => entries_field n).
 Definition stale_len (bits : Z) (data : list Z) : Z := if zlen data =? 2 ^ bits then 0 else zlen data.
 Definition segmented_lut_stale (bits first : Z) (data : list Z) :=
   segmented_lut_gen (fun d n => if stale_len bits d =? 65536 then 0 else n) bits first data.
+
+(* the segmented_lut_data accessor: the stored value as entries; for 8-bit data
+   the end of the last complete segment is found (3 entries, 4 for opcode 2) and
+   ONE dangling entry after it - the pad byte - is dropped *)
+Fixpoint seg_walk (arr : list Z) : list Z :=
+  match arr with
+  | op :: a :: b :: r =>
+      if op =? 2 then
+        match r with
+        | c :: r' => op :: a :: b :: c :: seg_walk r'
+        | [] => arr
+        end
+      else op :: a :: b :: seg_walk r
+  | [_] => []
+  | _ => arr
+  end.
+Definition segmented_read (bits : Z) (stored : list Z) : list Z :=
+  if bits =? 8 then seg_walk stored else words16 stored.
 
 (* the number_of_entries accessor; a value of VR US (what a descriptor can hold) *)
 Definition entries_read (v : Z) : Z := if v =? 0 then 65536 else v.
@@ -858,8 +885,10 @@ Definition displayed_area := displayed_area_gen false.
 (* ------------------------------------------------------------------ *)
 (** * boundary functions for parts 10-12                                *)
 (* ------------------------------------------------------------------ *)
+(* [descriptor; stored bytes; number of expanded entries; what segmented_lut_data returns] *)
 Definition run_segmented_lut (bits first : Z) (data : list Z) : val :=
-  vres (fun p => VL [vz_list (fst (fst p)); vz_list (snd (fst p)); VZ (snd p)]) (segmented_lut bits first data).
+  vres (fun p => VL [vz_list (fst (fst p)); vz_list (snd (fst p)); VZ (snd p);
+                     vz_list (segmented_read bits (snd (fst p)))]) (segmented_lut bits first data).
 Definition run_seg_measures (user multiframe patient has_spacing regular : bool) : val :=
   let r := seg_measures {| m_user := user; m_multiframe := multiframe; m_patient := patient;
                            m_has_spacing := has_spacing; m_regular := regular |} in
